@@ -705,10 +705,32 @@ def eqx_tree_at(where, pytree_, replace=None, replace_fn=None, is_leaf=None):
             cur = get_path(pytree_, s.path)
         except (AttributeError, KeyError, IndexError):
             raise Finding(f"tree_at selects a node that does not exist: {s.path}")
-        if cur is None and is_leaf is None:
-            raise Finding(f"tree_at selects a node whose value is None ({s.path}) without `is_leaf`")
+        if cur is None and is_leaf is None and _other_none_nodes(pytree_) >= 2:
+            # equinox locates the node by identity: with a second None in the tree (network parameters hold None
+            # placeholders for their non-array leaves) the selection is ambiguous and tree_at raises
+            raise Finding(f"tree_at selects a node whose value is None ({s.path}) without `is_leaf` in a tree that holds "
+                          f"other None nodes (network parameters keep None placeholders for non-array leaves)")
         out = set_path(out, s.path, r)
     return out
+
+
+def _other_none_nodes(tree):
+    """number of None nodes of a pytree; an abstract network-parameter label counts as one (eqx.partition leaves a None
+    for every non-array leaf, e.g. each activation function of the network)"""
+    n = 0
+
+    def rec(x):
+        nonlocal n
+        if x is None or isinstance(x, alg.NNLabel):
+            n += 1
+            return
+        k = pytree.node_kind(x)
+        if k in (None, 'none') or isinstance(x, OpaqueNode):
+            return
+        for key, c in pytree.children(x):
+            rec(c)
+    rec(tree)
+    return n
 
 
 def _tree_at_by_identity(where, tree, replace, is_leaf):
